@@ -143,4 +143,106 @@ theorem sreach_of_runS : ∀ (ls : List SLabel) (s0 s s' : SState), SReach s0 s 
       simp [hs] at h
       exact sreach_of_runS ls s0 s1 s' (.step l hr hs) h
 
+/-! ### The summary the conformance driver uses
+
+`driver xtime` judges an observed `SleepContext` call by membership in `sleepOutcomes`, not by running
+the LTS. The two lemmas below tie that summary to the LTS the property theorems are about: it has the
+closed form one expects, and every outcome it accepts is the result of a run of the LTS in which the
+context ends exactly when the harness says it does. (Soundness of the driver's verdict "ok"; the
+converse is not needed for trace inclusion.) -/
+
+set_option linter.unusedSimpArgs false in
+theorem sleepOutcomes_eq (d : Int) (dl ctxAt : Option Int) :
+    sleepOutcomes d dl ctxAt =
+      match sleepDecision d dl 0 with
+      | some r => [(r, 0)]
+      | none =>
+        match ctxAt with
+        | none => [(.nil, max d 0)]
+        | some c =>
+          (if max c 0 ≤ min (max d 0) (max c 0) then [(.ctxErr, min (max d 0) (max c 0))] else []) ++
+          (if max d 0 ≤ min (max d 0) (max c 0) then [(.nil, min (max d 0) (max c 0))] else []) := by
+  obtain ⟨hsel, h0, h1, _⟩ := arms
+  have hc1 : sleepSelect.contains (.recv "t.C") = true := by decide
+  have hc2 : sleepSelect.contains (.recv "ctx.Done()") = true := by decide
+  have hl : sleepSelect.length = 2 := by decide
+  unfold sleepOutcomes
+  cases hdec : sleepDecision d dl 0 with
+  | some r => rfl
+  | none =>
+    simp only [hc1, hc2, hl, if_true, sleepTimerDur]
+    cases ctxAt with
+    | none =>
+      simp [List.range_succ, hsel, h0, h1]
+    | some c =>
+      simp [List.range_succ, hsel, h0, h1]
+      simp only [List.filterMap_cons, List.filterMap_nil, List.getElem?_cons_zero, List.getElem?_cons_succ, h0, h1]
+      by_cases ha : max c 0 ≤ min (max d 0) (max c 0) <;> by_cases hb : max d 0 ≤ min (max d 0) (max c 0) <;>
+        simp [ha, hb]
+
+/-- Every `(result, elapsed)` pair the driver accepts for a call made at instant 0 is reached by a run
+of the LTS from the idle call: at once when the decision is immediate; otherwise after the clock ran
+to the first instant an arm is ready, where a context error is only accepted at the very instant the
+context ends (`max ctxAt 0`; the witness run cancels the context then). -/
+theorem sleepOutcomes_reachable {d : Int} {dl ctxAt : Option Int} {r : Ret} {t : Int}
+    (h : (r, t) ∈ sleepOutcomes d dl ctxAt) :
+    ∃ s, SReach (sInit 0 d dl false) s ∧ s.phase = .returned r t ∧
+      (r = .ctxErr → ∃ c, ctxAt = some c ∧ t = max c 0) := by
+  obtain ⟨hsel, h0, h1, _⟩ := arms
+  rw [sleepOutcomes_eq] at h
+  cases hdec : sleepDecision d dl 0 with
+  | some r0 =>
+    simp only [hdec, List.mem_singleton, Prod.mk.injEq] at h
+    obtain ⟨rfl, rfl⟩ := h
+    refine ⟨_, sreach_of_runS [.enter] _ _ _ .refl (by simp [runS, sstep, sInit, hdec]; rfl), rfl, ?_⟩
+    intro hr
+    subst hr
+    rw [sleepDecision_eq] at hdec
+    split at hdec
+    · cases hdec
+    · split at hdec
+      · split at hdec <;> cases hdec
+      · cases hdec
+  | none =>
+    have hd : 0 < d := by
+      rw [sleepDecision_eq] at hdec
+      by_cases hd : d ≤ 0
+      · simp [hd] at hdec
+      · omega
+    have hmax : max d 0 = d := by omega
+    have hd0 : 0 ≤ d := by omega
+    have hnil : ∃ s, SReach (sInit 0 d dl false) s ∧ s.phase = .returned .nil d :=
+      ⟨_, sreach_of_runS [.enter, .advance d, .arm 1] _ _ _ .refl
+        (by simp [runS, sstep, sInit, hdec, sleepTimerDur, hsel, h1, armReady, hd0]; rfl), rfl⟩
+    simp only [hdec, hmax] at h
+    cases ctxAt with
+    | none =>
+      simp only [List.mem_singleton, Prod.mk.injEq] at h
+      obtain ⟨rfl, rfl⟩ := h
+      obtain ⟨s, hs, hp⟩ := hnil
+      exact ⟨s, hs, hp, by intro hr; cases hr⟩
+    | some c =>
+      simp only [List.mem_append] at h
+      rcases h with h | h
+      · split at h
+        · rename_i hle
+          simp only [List.mem_singleton, Prod.mk.injEq] at h
+          obtain ⟨rfl, rfl⟩ := h
+          have ht : min d (max c 0) = max c 0 := by omega
+          have hc0 : 0 ≤ max c 0 := by omega
+          rw [ht]
+          refine ⟨_, sreach_of_runS [.enter, .advance (max c 0), .cancel, .arm 0] _ _ _ .refl
+            (by simp [runS, sstep, sInit, hdec, sleepTimerDur, hsel, h0, armReady, hc0]; rfl), rfl, ?_⟩
+          intro _; exact ⟨c, rfl, rfl⟩
+        · cases h
+      · split at h
+        · rename_i hle
+          simp only [List.mem_singleton, Prod.mk.injEq] at h
+          obtain ⟨rfl, rfl⟩ := h
+          have ht : min d (max c 0) = d := by omega
+          rw [ht]
+          obtain ⟨s, hs, hp⟩ := hnil
+          exact ⟨s, hs, hp, by intro hr; cases hr⟩
+        · cases h
+
 end Juniper.Proofs.XTimeSleep
